@@ -441,6 +441,43 @@ def exhaustive_mfpt(tier, shard, nshards):
     return gen()
 
 
+# --------------------------------------------------------------------------
+# >= 1000-state sparse chains: the all-pairs table takes its stationary vector from the sparse (ARPACK) eigen-solver
+
+@st.composite
+def arpack_case(draw):
+    return {"n": draw(st.sampled_from([1000, 1001, 1100])), "seed": draw(st.integers(0, 2 ** 31 - 1)),
+            "n_clusters": draw(st.integers(2, 4)), "container": draw(st.sampled_from(["csr", "coo", "csc"])),
+            "lag": draw(st.sampled_from([1.0, 0.5, 3.0])), "cols": draw(st.lists(st.integers(0, 999), min_size=2, max_size=3))}
+
+
+def run_arpack(case):
+    from vf import ref_c16
+    n = case["n"]
+    Ts = ref_c16.seeded_big_sparse(n, case["seed"], "rev_clusters", n_clusters=case["n_clusters"])
+    T = np.asarray(Ts.toarray())
+    X = {"csr": Ts.tocsr(), "coo": Ts.tocoo(), "csc": Ts.tocsc()}[case["container"]]
+    table = np.asarray(_quiet(tpt.mfpts, X, lagtime=case["lag"]))
+    require(table.shape == (n, n), "all-pairs MFPT table has the wrong shape", shape=table.shape)
+    for j in sorted(set(int(c) % n for c in case["cols"])):
+        # first-step equations of column j, evaluated with dense numpy on the dense copy of the chain
+        m = table[:, j]
+        require(abs(m[j]) <= 1e-6 * (1 + np.max(np.abs(m))), "all-pairs table: MFPT from a state to itself is not 0",
+                j=j, value=float(m[j]))
+        rhs = case["lag"] + T.dot(m)
+        free = np.arange(n) != j
+        res = np.abs(m[free] - rhs[free])
+        require(np.all(res <= 1e-6 * (1 + np.abs(m[free]))),
+                "all-pairs column does not satisfy m_i = lag + sum_j T_ij m_j on a >=1000-state sparse chain",
+                j=j, worst=float(res.max()), typical=float(np.median(np.abs(m))))
+        single = np.asarray(_quiet(tpt.mfpts, X, sinks=[j], lagtime=case["lag"])).ravel()
+        require(np.allclose(single, m, rtol=1e-6, atol=1e-6 * (1 + np.max(np.abs(m)))),
+                "all-pairs column differs from the single-sink computation (>=1000-state sparse chain)", j=j,
+                worst=float(np.max(np.abs(single - m))))
+    return Info(True, ["arpack_container=" + case["container"], "arpack_n=%d" % n],
+                key=[case["n"], case["seed"], case["container"]])
+
+
 CLAUSES = [
     Clause("committor_first_step", committor_case(), run_committor, quick=2000, thorough=12000,
            exhaustive=exhaustive_committor,
@@ -450,6 +487,8 @@ CLAUSES = [
            doc="m=0 on sinks, m_i = lag + sum_j T_ij m_j elsewhere"),
     Clause("mfpt_allpairs_columns", allpairs_case(), run_allpairs, quick=800, thorough=5000,
            doc="all-pairs column j == mfpts(sinks=[j]) and satisfies the same equations"),
+    Clause("arpack_chain", arpack_case(), run_arpack, quick=8, thorough=48,
+           doc="all-pairs table on >=1000-state sparse chains (stationary vector from the sparse eigen-solver)"),
     Clause("mfpt_lag_linear", lag_case(), run_lag, quick=600, thorough=5000,
            doc="mfpts(lagtime=t) == t * mfpts(lagtime=1), default lag is 1"),
     Clause("dense_sparse_same", multi_case(), run_same, quick=300, thorough=2000,
